@@ -288,6 +288,8 @@ def fgmres(A, b, x0=None, tol=1e-5,
             #   the LHS for the linear system in the Krylov Subspace
             H[:, inner] = v[0:max_inner]
 
+            niter += 1
+
             # Don't update normr if last inner iteration, because
             # normr is calculated directly after this loop ends.
             if inner < max_inner-1:
@@ -301,8 +303,6 @@ def fgmres(A, b, x0=None, tol=1e-5,
                     y = sp.linalg.solve(H[0:(inner+1), 0:(inner+1)], g[0:(inner+1)])
                     update = np.dot(Z[:, 0:inner+1], y)
                     callback(x + update)
-
-            niter += 1
 
         # end inner loop, back to outer loop
 
